@@ -226,7 +226,7 @@ def st_case(draw):
                  ops=draw(st.lists(st.tuples(st.sampled_from(["enc", "dec"]), st.integers(0, 2), st.integers(0, 7)).map(list), min_size=3, max_size=12)))
     elif kind == "fresh_many":
         c.update(key=draw(st.binary(min_size=klen, max_size=klen)).hex(), m=draw(st.binary(max_size=40)).hex(),
-                 count=draw(st.sampled_from([300, 520, 1100])))
+                 count=draw(st.sampled_from([300, 520, 1100, 4200, 9000])))
     elif kind == "bad_ctor_keylen":
         c["klen"] = draw(st.sampled_from([0, 1, 8, 15, 17, 20, 23, 25, 31, 33, 48, 64, -16]))
     elif kind == "bad_ctor_cipherlen":
@@ -314,6 +314,11 @@ def _length_cases(tier, seed):
     for klen in (16, 24, 32):
         yield {"kind": "fresh_many", "alias": "AES-CBC", "seed": seed + klen, "key": (hashlib.sha256(b"fm%d" % klen).digest() * 2)[:klen].hex(),
                "m": b"same message".hex(), "count": 1100}
+    # long runs on one object (IV pools and periodic generators repeat only after thousands of calls)
+    yield {"kind": "fresh_many", "alias": "AES-CBC", "seed": seed + 5, "key": (hashlib.sha256(b"fm-long").digest())[:16].hex(), "m": b"m".hex(),
+           "count": 9000 if tier == "quick" else 20000}
+    yield {"kind": "fresh_many", "alias": "AES-CBC", "seed": seed + 6, "key": (hashlib.sha256(b"fm-longer").digest())[:32].hex(), "m": b"".hex(),
+           "count": 70000 if tier == "quick" else 140000}
 
 
 def run_shard(spec, seed, tier):
